@@ -430,6 +430,7 @@ def run_check(prop, tier, verif_seed, workers=None, runs_override=None, wall_ove
     if wall_override is not None:
         tcfg["wall"] = wall_override
     workers = workers or min(16, os.cpu_count() or 1)
+    os.environ["SIMTT_TIER"] = tier     # read by the machines' swarm configuration (deeper bounds in "thorough")
     env.preload_sut()
     print("CHECK property=%s tier=%s VERIF_SEED=%d machine=%s workers=%d repo=%s" % (
         prop, tier, verif_seed, m.NAME, workers, env.REPO))
